@@ -18,6 +18,13 @@ def _probe_vertices(n):
     return [0, -1] + list(range(1, n + 1)) + [n + 1]
 
 
+def _force_list(x):
+    try:
+        return list(x)
+    except TypeError:
+        return x
+
+
 def snapshot(G):
     """Deep, comparable snapshot of a cnfgen graph object (all storage)."""
     if G.is_bipartite():
@@ -219,6 +226,15 @@ def compare_bipartite(G, ref, bad, bad_exc, deep=True):
                 (v, ln, ref.left_neighbors(v)))
         if get("left_degree", G.left_degree, v) != len(ln):
             bad("left_degree", "left_degree(%d)" % v)
+    # vertices that are not in the graph have no neighbours to report
+    for name, fn, top in (("right_neighbors", G.right_neighbors, L),
+                          ("left_neighbors", G.left_neighbors, R),
+                          ("right_degree", G.right_degree, L),
+                          ("left_degree", G.left_degree, R)):
+        for x in (0, -1, top + 1, top + 50):
+            r = call(lambda: _force_list(fn(x)))
+            if r[0] == "ok" or not isinstance(r[1], ValueError):
+                bad(name + "-out-of-range", "%s(%d) -> %r" % (name, x, r[1]))
     if deep:
         N = get("to_networkx", G.to_networkx)
         want_nodes = list(range(1, L + R + 1))
